@@ -117,7 +117,8 @@ class C20(Check):
         wd = os.path.join(runner.RUNROOT, "C20-%s-%d" % (tier, os.getpid()))
         shutil.rmtree(wd, ignore_errors=True)
         os.makedirs(wd)
-        shutil.rmtree(os.path.join(runner.VERIF, "replays", self.id), ignore_errors=True)
+        RD = os.environ.get("VERIF_REPLAY_DIR") or os.path.join(runner.VERIF, "replays")
+        shutil.rmtree(os.path.join(RD, self.id), ignore_errors=True)
         nfiles = int(os.environ.get("VERIF_N", 36)) if tier == "quick" else 800
         jobs = []
         for i in range(nfiles):
@@ -126,7 +127,7 @@ class C20(Check):
         self.nrun = 0
 
         def bad(key, msg, files):
-            d = os.path.join(runner.VERIF, "replays", self.id)
+            d = os.path.join(RD, self.id)
             os.makedirs(d, exist_ok=True)
             keep = []
             for f in files:
